@@ -640,6 +640,12 @@ def gen_corr_cases(tier, rng, nrng):
     """small cases for the model <-> implementation comparison inside Coq"""
     shapes = small_shapes(tier)
     N = 170 if tier == "quick" else 1500
+    # order-1 inputs: every function raises (tensor_train: the final unpacking of a 1-D remainder; tensor_ring / tucker: the result
+    # classes need at least two factors; tensor_train_matrix: odd order) -- the model must answer Err (outside the property's orders 2-5)
+    for shape, kind, rank, extra in [((3,), "tt", [1, 1], {}), ((2,), "tt", 2, {}), ((3,), "tr", [1, 1], {"mode": 0}), ((1,), "tr", 1, {"mode": 0}),
+                                     ((3,), "tucker", [2], {"n_iter_max": 1, "tol": 0, "init": "svd"}), ((2,), "tucker", 1, {"n_iter_max": 0, "tol": 0, "init": "svd"}),
+                                     ((3,), "ttm", [1, 1], {})]:
+        yield kind, np.arange(1.0, 1.0 + shape[0]), rank, extra, {"cls": "order1", "valid": False}
     # tucker with several HOOI sweeps on generic tensors whose modes all have size >= 2 (every mode's update matters in every sweep)
     for i in range(6 if tier == "quick" else 30):
         shape = [(2, 2, 2), (2, 3, 2), (2, 2, 2, 2), (3, 2, 2, 2), (2, 2, 3, 2), (3, 3, 2)][i % 6]
